@@ -23,6 +23,7 @@ type Case struct {
 	Config       string         // "" (default) | "cache-off" | "dev" | "auto-reload": engine settings applied before registration
 	Prime        string         // a template parsed on a throwaway engine right before this case (pooled tokenizers/parsers are reused)
 	Globals      map[string]any // engine globals (AddGlobal); the model has none: used by the shadowing oracle only
+	Route        *renderRoute   // nil = Engine.Render; otherwise the top-level entry point and writer kind the render goes through (c17_routes.go)
 }
 
 type PolicySpec struct {
@@ -158,6 +159,9 @@ func runImpl(c *Case) Outcome {
 		}
 		ctx, _ := deepCopy(map[string]interface{}(c.Ctx)).(map[string]interface{})
 		lastEngine = e
+		if c.Route != nil {
+			return c.Route.render(e, c.Main, ctx)
+		}
 		return e.Render(c.Main, ctx)
 	})
 	o.Out, o.Class, o.Panic, o.Spies = res.Out, mapClass(res.Class), res.Panic, spies
@@ -302,6 +306,9 @@ func (c *Case) replay(im, mo Outcome) map[string]any {
 	r := map[string]any{"kind": "render", "templates": tpls, "main": c.Main, "ctx": c.Ctx, "request": c.request(),
 		"impl":  map[string]any{"out": im.Out, "class": im.Class, "msg": im.Msg, "causes": im.Causes, "spies": fmt.Sprint(im.Spies), "panic": im.Panic},
 		"model": map[string]any{"out": mo.Out, "class": mo.Class, "msg": mo.Msg, "causes": mo.Causes, "spies": fmt.Sprint(mo.Spies), "unsupported": mo.Unsupported}}
+	if c.Route != nil {
+		r["route"] = c.Route.name
+	}
 	return r
 }
 
